@@ -316,8 +316,12 @@ func (seg *Segmenter) splitByScript() {
 				continue
 			} else if currentInput.Script == language.Common {
 				// update the pair stack to attribute the resolved script
+				// to the delimiters seen while the script was still unknown
+				// (the ones opened in a previous run keep their script)
 				for i := range seg.delimStack {
-					seg.delimStack[i].script = rScript
+					if seg.delimStack[i].script == language.Common {
+						seg.delimStack[i].script = rScript
+					}
 				}
 				// set the resolved script to the current run,
 				// but do NOT create a new run
